@@ -20,7 +20,8 @@ PROPS = {
                     'pedal.core.final_feedback:parse_feedback', 'pedal.core.final_feedback:FinalFeedback.merge',
                     'pedal.core.final_feedback:FinalFeedback.__init__',
                     'pedal.core.final_feedback:set_correct_no_errors',
-                    'pedal.core.final_feedback:FinalFeedback.finalize', 'pedal.core.feedback:Feedback.__bool__'],
+                    'pedal.core.final_feedback:FinalFeedback.finalize', 'pedal.core.feedback:Feedback.__bool__',
+                    'pedal.core.report:Report.suppress'],
         'clause_exclude': [r'merge\.correct_', r'merge\.success_is', r'finalize\.correct_', r'finalize\.score_',
                            r'finalize\.success_is'],
         'native': 'c01', 'native_arg': {'prop': 'C01'},
@@ -151,6 +152,7 @@ PROPS = {
     },
     'C16': {
         'sidecars': ['contracts/c16_proxy.py'],
+        'more_sidecar_groups': [['contracts/c16_handle.py']],
         'native': 'c16',
         'level': 'other',
         'explanation': 'Every arithmetic, bitwise, shift, comparison, conversion, unary, indexing, membership and length '
